@@ -390,9 +390,21 @@ class SyncIterSource:
         self.pos += 1
         self.state = "open"
         rec.ev(ev="pull", src=self.idx, res="item")
-        return self.items[self.pos - 1]
+        it = self.items[self.pos - 1]
+        return it.make() if isinstance(it, LazyAw) else it
 
     released = True
+
+
+class LazyAw:
+    """An awaitable that is only made when the iterable of awaitables is asked for it, and kept by nobody (like the
+    coroutines of a generator expression): once awaited and dropped, its memory -- and its id() -- is free for the next."""
+
+    def __init__(self, rec, value):
+        self.rec, self.value = rec, value
+
+    def make(self):
+        return Aw(self.rec, self.value)
 
 
 class SeqSource:
